@@ -2561,7 +2561,7 @@ class TupleParser:
         CIMType = type_from_name(cimtype)
         try:
             value = CIMType(value)
-        except ValueError as exc:
+        except (ValueError, OverflowError) as exc:
             new_exc = CIMXMLParseError(
                 _format("Cannot convert value {0!A} to numeric CIM type {1}: "
                         "{2}",
